@@ -5,7 +5,7 @@ import ast
 from typing import Dict, List, Optional, Set, Tuple
 
 from ..core import AnalysisError, ClassInfo, FunctionInfo, call_name, kwarg, unparse, walk_no_nested
-from ..exprs import cmp_canon
+from ..exprs import canon_unparse, cmp_canon
 from ..flow import possibly_unbound
 from ..selftest import B, M
 from .common import (
@@ -325,8 +325,8 @@ def rule_quantile_progress(ctx):
     rec = [c for c in ast.walk(fi.node) if isinstance(c, ast.Call) and call_name(c) == "np_find_quantiles"]
     ok = bool(rec)
     for c in rec:
-        a0 = unparse(c.args[0]).replace(" ", "")
-        ok = ok and "~in1d(df_feature,frequent_values)" in a0 and "sub_indices==i" in a0
+        a0 = canon_unparse(c.args[0])
+        ok = ok and "~in1d(df_feature,frequent_values)" in a0 and ("i==sub_indices" in a0 or "sub_indices==i" in a0)
     ctx.ob(R, construct(fi, "the recursion continues on sub-arrays without the over-represented values (strictly smaller)"), ok, loc(fi, rec[0] if rec else None),
            "" if ok else "a recursive call on an array that still holds the frequent value never terminates (RecursionError)")
     base = [s for s in walk_no_nested(fi.node) if isinstance(s, ast.If) and cmp_canon(s.test) in (("0", "==", "df_feature.shape[0]"), ("0", "==", "len(df_feature)"))]
